@@ -3,8 +3,11 @@ package props
 import (
 	"bytes"
 	"fmt"
+	"os"
+	"path/filepath"
 	"runtime"
 	"strconv"
+	"strings"
 	"sync"
 	"testing"
 
@@ -76,8 +79,9 @@ func c10CheckEnc(c c10Enc, st *stats.Run) error {
 // B: a passphrase identity rejects headers where the scrypt stanza has company.
 type c10Hdr struct {
 	Others     []hx.RecSpec `json:"others"`
-	Pos        int          `json:"pos"`    // position of the scrypt stanza among the stanzas
-	Second     bool         `json:"second"` // a second (correct) scrypt stanza is present too
+	Pos        int          `json:"pos"`              // position of the scrypt stanza among the stanzas
+	Second     bool         `json:"second"`           // a second (correct) scrypt stanza is present too
+	Copies     int          `json:"copies,omitempty"` // the scrypt stanza is followed by this many exact copies of itself
 	WF         int          `json:"wf"`
 	Pass       string       `json:"pass"`
 	WithOthers bool         `json:"withOthers"` // identity list also contains the other recipients' identities, after the passphrase identity
@@ -97,6 +101,14 @@ func c10CheckHdr(c c10Hdr, st *stats.Run) error {
 	if c.Second {
 		sts = append(sts, refage.WrapScrypt(fk, hx.PRG(2, 16), c.WF, []byte(c.Pass)))
 	}
+	for k := 0; k < c.Copies; k++ {
+		// byte-identical copies, right after the original or at the end
+		if k%2 == 0 {
+			sts = append(sts[:pos+1:pos+1], append([]refage.Stanza{sc}, sts[pos+1:]...)...)
+		} else {
+			sts = append(sts, sc)
+		}
+	}
 	f := refage.Build(fk, hx.PRG(3, 16), sts, refage.CanonicalChunks(plain))
 	id, _ := age.NewScryptIdentity(c.Pass)
 	ids := []age.Identity{id}
@@ -108,7 +120,7 @@ func c10CheckHdr(c c10Hdr, st *stats.Run) error {
 		}
 	}
 	n := len(sts)
-	st.Case(n >= 2, stats.HashJSON(c), "B:hdr", fmt.Sprintf("B:stanzas=%d", n), fmt.Sprintf("B:scrypt-pos=%d", pos), fmt.Sprintf("B:second=%v", c.Second), fmt.Sprintf("B:with-others=%v", c.WithOthers))
+	st.Case(n >= 2, stats.HashJSON(c), "B:hdr", fmt.Sprintf("B:stanzas=%d", n), fmt.Sprintf("B:scrypt-pos=%d", pos), fmt.Sprintf("B:second=%v", c.Second), fmt.Sprintf("B:exact-copies=%d", c.Copies), fmt.Sprintf("B:with-others=%v", c.WithOthers))
 	st.Sample("header-with-company", map[string]any{"case": c, "header": trunc(f.Header.Marshal())})
 	got, err, haveReader := decryptLib(f.Bytes(), hx.Delivery{Mode: "whole"}, []int{4096}, false, ids...)
 	if n == 1 {
@@ -346,6 +358,71 @@ func c10GenWF(t *rapid.T, maxK int) c10WF {
 	return c
 }
 
+// through the age command and a terminal: -p together with any other way of naming a recipient is refused
+type c10CLI struct {
+	With  []string `json:"with"` // r | R | i | j
+	Armor bool     `json:"armor"`
+}
+
+func c10CheckCLI(c c10CLI, st *stats.Run) error {
+	bin := os.Getenv("VERIF_BIN")
+	if bin == "" {
+		return nil
+	}
+	p := hx.ThePool()
+	dir, err := os.MkdirTemp(".", "c10cli-")
+	if err != nil {
+		return pbt.Failf("C10/harness", "%v", err)
+	}
+	dir, _ = filepath.Abs(dir)
+	defer os.RemoveAll(dir)
+	pdir := filepath.Join(dir, "plugins")
+	if err := hx.InstallPlugin(dir, pdir, "sim", &hx.PlugScript{Steps: []hx.PlugStep{{Raw: "-> recipient-stanza 0 sim arg\n" + refage.B64(hx.PRG(3, 32)) + "\n"}, {Raw: "-> done\n\n", NoReply: true}}}); err != nil {
+		return pbt.Failf("C10/harness", "%v", err)
+	}
+	work := filepath.Join(dir, "work")
+	os.MkdirAll(work, 0o755)
+	os.WriteFile(filepath.Join(work, "in.txt"), []byte("plaintext"), 0o644)
+	rstr := refage.Bech32Encode("age", refage.X25519Public(p.X25519[0]))
+	os.WriteFile(filepath.Join(work, "recips.txt"), []byte(rstr+"\n"), 0o644)
+	os.WriteFile(filepath.Join(work, "key.txt"), []byte(refage.Bech32Encode("AGE-SECRET-KEY-", p.X25519[1])+"\n"), 0o600)
+	args := []string{"-e", "-p"}
+	for _, w := range c.With {
+		switch w {
+		case "r":
+			args = append(args, "-r", rstr)
+		case "R":
+			args = append(args, "-R", "recips.txt")
+		case "i":
+			args = append(args, "-i", "key.txt")
+		case "j":
+			args = append(args, "-j", "sim")
+		}
+	}
+	if c.Armor {
+		args = append(args, "-a")
+	}
+	args = append(args, "-o", "out.age", "in.txt")
+	st.Case(len(c.With) >= 1, stats.HashJSON(c), "A:cli", "A:cli-with="+strings.Join(c.With, "+"))
+	st.Sample("cli-passphrase-with-others", c)
+	res, tty := c15RunPtyEnv(work, []string{"PATH=" + pdir, "HOME=" + work, hx.PlugEnv + "=" + dir}, []string{"a passphrase", "a passphrase"}, filepath.Join(bin, "age"), args...)
+	if res.killed || res.code == -3 {
+		st.Label("inconclusive-pty")
+		return nil
+	}
+	out, rerr := os.ReadFile(filepath.Join(work, "out.age"))
+	if len(c.With) == 0 {
+		if res.code != 0 || rerr != nil {
+			return pbt.Failf("C10/alone-refused", "age -e -p alone: exit %d (%s / %q)", res.code, res.stderr, tty)
+		}
+		return nil
+	}
+	if res.code == 0 || rerr == nil {
+		return pbt.Failf("C10/mixed-accepted", "age %s: a passphrase together with other recipients was not refused: exit %d, output file of %d bytes (%q)", strings.Join(args, " "), res.code, len(out), tty)
+	}
+	return nil
+}
+
 func TestC10(t *testing.T) {
 	s := pbt.Start(t, "C10")
 	defer s.Finish()
@@ -421,6 +498,16 @@ func TestC10(t *testing.T) {
 		s.St.Exhaust("a passphrase recipient with 1-3 recipients that contribute no stanza (no labels, empty labels, a label) before and after it", int64(n))
 	}, enc)
 
+	pbt.Each(s, "encrypt-mixed-cli", func(yield func(c10CLI)) {
+		n := 0
+		for _, w := range [][]string{{}, {"r"}, {"R"}, {"i"}, {"j"}, {"j", "j"}, {"r", "j"}, {"i", "j"}, {"R", "r"}} {
+			if s.Mine(n) {
+				yield(c10CLI{With: w, Armor: n%2 == 1})
+			}
+			n++
+		}
+		s.St.Exhaust("age -e -p through a terminal, alone and together with -r, -R, -i, -j and pairs of them", int64(n))
+	}, func(c c10CLI) error { return c10CheckCLI(c, s.St) })
 	// headers: scrypt stanza at every position among 1..5 stanzas, exhaustive over a small pool
 	pbt.Each(s, "header-company", func(yield func(c10Hdr)) {
 		pool := []hx.RecSpec{{Kind: "x25519", Idx: 0}, {Kind: "ed25519", Idx: 0}, {Kind: "stub", Stub: &hx.StubSpec{Stanzas: []refage.Stanza{{Type: "grease", Args: []string{"g"}, Body: nil}}}}, {Kind: "rsa", Idx: 0}}
@@ -441,10 +528,15 @@ func TestC10(t *testing.T) {
 				}
 			}
 		}
+		for copies := 1; copies <= 3; copies++ {
+			yield(c10Hdr{Pos: 0, WF: 2, Pass: "pw", Copies: copies})
+			yield(c10Hdr{Others: pool[:1], Pos: 1, WF: 2, Pass: "pw", Copies: copies})
+			n += 2
+		}
 		s.St.Exhaust("correct scrypt stanza at every position among every subset of {x25519, ssh-ed25519, grease, ssh-rsa} stanzas, with/without a second scrypt stanza, identity alone or first among the others", int64(n))
 	}, hdr)
 	pbt.Rapid(s, "header-company", s.N(1500, 8000), func(t *rapid.T) c10Hdr {
-		return c10Hdr{Others: genRecipients(t, 4, false, true), Pos: rapid.IntRange(0, 8).Draw(t, "pos"), Second: rapid.IntRange(0, 3).Draw(t, "second") == 0, WF: rapid.IntRange(1, 4).Draw(t, "wf"), Pass: genPass(t), WithOthers: rapid.Bool().Draw(t, "withOthers")}
+		return c10Hdr{Others: genRecipients(t, 4, false, true), Pos: rapid.IntRange(0, 8).Draw(t, "pos"), Second: rapid.IntRange(0, 3).Draw(t, "second") == 0, WF: rapid.IntRange(1, 4).Draw(t, "wf"), Pass: genPass(t), WithOthers: rapid.Bool().Draw(t, "withOthers"), Copies: rapid.SampledFrom([]int{0, 0, 0, 1, 2}).Draw(t, "copies")}
 	}, hdr)
 
 	// the CLI's LazyScryptIdentity (cmd/age/encrypted_keys.go), in-package
